@@ -272,10 +272,11 @@ class SpecProtocol:
         a = [x for x in args if not isinstance(x, tuple)]
         site = interp.site(frame, node)
         outs = []
-        r = interp._implicit_raise(st, frame, node, {"AttributeError"}, "rawset")
-        if r and r[-1] is None:
-            return r[:-1]
-        outs.extend(r)
+        if getattr(interp.cfg, "rawset_raises", True):
+            r = interp._implicit_raise(st, frame, node, {"AttributeError"}, "rawset")
+            if r and r[-1] is None:
+                return r[:-1]
+            outs.extend(r)
         interp.w_event(st, "rawset", a[0], vrepr(a[1]), a[2], site)
         outs.append(Outcome("ok", st, NONE))
         return outs
@@ -289,6 +290,8 @@ class SpecProtocol:
 
     def ext_setattr(self, interp, st, args, kwargs, frame, node):
         a = [x for x in args if not isinstance(x, tuple)]
+        if isinstance(a[0], Sym) and "specinst" not in a[0].tags:
+            st.emit("MR", "setattr()", interp.site(frame, node))   # may be a spec instance: type-checks
         if isinstance(a[0], Sym) and "specinst" in a[0].tags:
             site = interp.site(frame, node)
             if self.setattr_mode == "inline" and self._inl < 1:
@@ -310,7 +313,8 @@ class SpecProtocol:
                     return interp.call_function(st, FuncV(self.delattr_closure, None), a, {}, frame, node)
                 finally:
                     self._inl -= 1
-            st.emit("MR", "delattr()", site)
+            # no may-raise marker: a missing attribute raises before anything is written, and
+            # re-installing a declared default cannot fail its type check (assumption: defaults conform)
         return None
 
     def ext_deepcopy(self, interp, st, v, site, shallow):
